@@ -844,6 +844,7 @@ func genScript(r *gen.Rand, flavour int) []step {
 	p := &planner{}
 	var steps []step
 	next := 0
+	eager := r.Chance(1, 2) // enqueue early, so that commands wait behind one another
 	pc := 100
 	newP := func(errReply bool) int {
 		pc += 2
@@ -881,6 +882,9 @@ func genScript(r *gen.Rand, flavour int) []step {
 		add := func(w int, f func()) { cands = append(cands, cand{w, f}) }
 		if next < nc {
 			w := 2
+			if eager {
+				w = 12
+			}
 			if p.cur == nil {
 				w = 30
 			}
@@ -928,7 +932,7 @@ func genScript(r *gen.Rand, flavour int) []step {
 				}
 				completes := q.done > p.done
 				if observable || completes {
-					add(3, func() {
+					add(4, func() {
 						for _, i := range waiting {
 							push(step{Op: "timeout", Cmd: k.id, W: i})
 						}
